@@ -205,7 +205,8 @@ lemma("pick_len", [v, n, p0, st, cnt], Len(pick(v, n, p0, st, cnt)) == z3.If(cnt
       patterns=[pick(v, n, p0, st, cnt)], induct=("int", cnt), inst=[[v, n, p0, st, cnt - 1]])
 lemma("pick_nth", [v, n, p0, st, cnt, j2],
       Imp(And(0 <= j2, j2 < cnt), pick(v, n, p0, st, cnt)[j2] == ((v / pow2(n - (p0 + j2 * st) - 1)) % 2 == 1)),
-      patterns=None, induct=("int", cnt), inst=[[v, n, p0, st, cnt - 1, j2]], uses=["pick_len"])
+      patterns=None, induct=("int", cnt), inst=[[v, n, p0, st, cnt - 1, j2]], uses=["pick_len"], no_auto=True, unfold_only=["pick"],
+      cases=[j2 == cnt - 1, j2 < cnt - 1])
 
 contract(B + ".__iter__", params=dict(self=BITS), returns=BoolL,
          ensures=["result == pick(self.value, self.length, 0, 1, self.length)", "len(result) == self.length"],
